@@ -5,11 +5,11 @@ use rooc::RoocParser;
 use rooc::model_transformer::TransformError;
 use serde_json::json;
 
-const PRELUDE_WHERE: &str = "where\n    let A = [1, 2, 3]\n    let B = [4, 5]\n    let EM = []\n    let M = [[1, 2], [3, 4]]\n    let S = [\"a\", \"b\"]\n    let BS = [true, false]\n    let G = Graph {\n        P -> [Q: 2, R],\n        Q -> [R: 1.5],\n        R\n    }\n    let n0 = 2\n    let f0 = 2.5\n    let t0 = true\n    let s0 = \"P\"\n";
+const PRELUDE_WHERE: &str = "where\n    let A = [1, 2, 3]\n    let B = [4, 5]\n    let EM = []\n    let MX = [1, \"a\", true]\n    let MM = [[1, 2], [3, 4.5]]\n    let M = [[1, 2], [3, 4]]\n    let S = [\"a\", \"b\"]\n    let BS = [true, false]\n    let G = Graph {\n        P -> [Q: 2, R],\n        Q -> [R: 1.5],\n        R\n    }\n    let n0 = 2\n    let f0 = 2.5\n    let t0 = true\n    let s0 = \"P\"\n";
 const PRELUDE_DEFINE: &str = "define\n    x as Real(0, 10)\n    b as Boolean\n    y_i as Real(0, 5) for i in 0..4\n";
 
 /// (name, kind, text) — typed atoms that fill every hole
-const ATOMS: [(&str, &str); 30] = [
+const ATOMS: &[(&str, &str)] = &[
     ("int", "3"),
     ("zero", "0"),
     ("neg-int", "-2"),
@@ -40,6 +40,9 @@ const ATOMS: [(&str, &str); 30] = [
     ("undeclared", "zz"),
     ("undeclared-compound", "q_1"),
     ("infinity", "Infinity"),
+    ("mixed-array", "MX"),
+    ("mixed-array-literal", "[1, \"a\"]"),
+    ("mixed-matrix", "MM"),
 ];
 /// atoms only meaningful inside a scope that binds them
 const SCOPED_ATOMS: [(&str, &str); 6] = [("node-var", "nd"), ("edge-var", "ed"), ("tuple-var", "tp"), ("iter-int", "k"), ("iter-elem", "v"), ("shadowed-const", "A")];
@@ -255,7 +258,7 @@ fn atom_class(atom: &str) -> String {
             "string" | "string-const" | "node-var" | "edge-endpoint" | "string-elem" => "string-or-node",
             "bool" | "bool-const" | "bool-elem" => "boolean",
             "num-array" | "num-array-literal" | "empty-array" | "array-row" | "shadowed-const" | "row-elem" => "number-array",
-            "nested-array" | "string-array" | "bool-array" => "other-array",
+            "nested-array" | "string-array" | "bool-array" | "mixed-array" | "mixed-array-literal" | "mixed-matrix" => "other-array",
             "edges-call" | "enumerate-call" => "tuple-iterable",
             "nodes-call" => "node-iterable",
             "undeclared" | "undeclared-compound" => "undeclared",
